@@ -29,6 +29,7 @@ CLASSES = {
     "plain": ["a"], "dquote": ['"'], "squote": ["'"], "backslash": ["\\"], "LF": ["\n"], "CR": ["\r"], "TAB": ["\t"], "space": [" "],
     "lt": ["<"], "gt": [">"], "amp": ["&"], "hash": ["#"], "dot": ["."], "percent": ["%"], "brace": ["{"], "nonASCII": ["é", " "],
     "nonBMP": ["\U0001F600"], "ctrl": ["\x01", "\x7f"], "fffe": ["￾"], "combining": ["é"],
+    "cdataend": ["]]>", "x[y[0]]>z"], "commentend": ["-->", "<!--"],
 }
 XML_BAD = {"ctrl", "fffe"}
 
